@@ -41,7 +41,11 @@ pub struct Round {
     pub late_replies: usize,
 }
 
+/// pseudo socket index: send through the raw socket with UDP source port 0
+pub const SPOOF_PORT0: usize = usize::MAX;
+
 pub struct Driver {
+    pub raw: Option<crate::inproc::RawUdp>,
     pub srv: Inproc,
     pub socks: Vec<UdpSocket>,
     pub cfg: HConfig,
@@ -55,7 +59,7 @@ impl Driver {
         let sv = srv_value(&ref_pk);
         let srv = Inproc::start(cfg.clone())?;
         let socks = (0..nsocks).map(|_| client_socket()).collect();
-        Ok(Driver { srv, socks, cfg, ref_pk, srv_value: sv })
+        Ok(Driver { raw: crate::inproc::RawUdp::new(), srv, socks, cfg, ref_pk, srv_value: sv })
     }
 
     pub fn ensure_socks(&mut self, n: usize) {
@@ -70,8 +74,19 @@ impl Driver {
         let t_before = SystemTime::now();
         let mut sent = Vec::with_capacity(sends.len());
         for (s, d) in sends {
-            let (expect, info) = req::expectation(&d, &self.srv_value);
-            let _ = self.socks[s].send_to(&d, self.srv.addr);
+            let (mut expect, info) = req::expectation(&d, &self.srv_value);
+            if s == SPOOF_PORT0 {
+                // no reply can reach us (and none can be sent): nothing is demanded for this one
+                match &self.raw {
+                    Some(r) if r.send_from_port(0, self.srv.addr, &d) => {}
+                    _ => continue,
+                }
+                if expect == Expect::Must {
+                    expect = Expect::May;
+                }
+            } else {
+                let _ = self.socks[s].send_to(&d, self.srv.addr);
+            }
             sent.push(Sent { sock: s, data: d, expect, info });
         }
         let mut panic = None;
